@@ -1,5 +1,5 @@
 (* C07/Driver.v — entry points of the correspondence run (extracted to OCaml). *)
-From RM Require Import C07.Model C07.Text C06.Driver.
+From RM Require Import C07.Model C07.Text C07.Walker C06.Driver.
 From RM Require C09.Grammar.
 Open Scope Z_scope.
 
@@ -80,4 +80,60 @@ Definition run_real7_text (ctx : list (bytes * Z)) (valid : option (list bytes))
   | Ret (Some None) => out_none
   | Ret None => out_none       (* no symbols: no CFI frame *)
   | _ => out_panic
+  end.
+
+(* ---- front-end F: one x86 walk_stack step resumed from a frame LIST.  `below` = StackFrame::parameter_size of the
+   frames under the callee, innermost first; has_grand_callee / grand_callee_parameter_size are derived from the
+   list as walk_stack + CfiStackWalker::from_ctx_and_args do (C07/Walker.v, Gen/C07WalkerArgs.v).
+   walk_stack: a frame it produced itself is unwound further only while its stack pointer is inside the stack memory;
+   x86::get_caller_frame left `instruction = eip - 1` in every frame but the context frame. ---- *)
+Definition frames_pre (below : list (option Z)) (ctx : list (bytes * Z)) (valid : option (list bytes))
+                      (stackbase : Z) (stack : bytes) : option (Z * Z) :=
+  let a := x86 in
+  let ip := match assoc (a_ip a) ctx with Some v => v | None => 0 end in
+  let sp := match assoc (a_sp a) ctx with Some v => v | None => 0 end in
+  let instr := match below with [] => ip | _ :: _ => ip - 1 end in
+  let sp_valid := match valid with None => true | Some which => mem_b (a_sp a) which end in
+  let sp_in_stack := match below with
+                     | [] => true
+                     | _ :: _ => match mem_read 1 stackbase stack sp with Some _ => true | None => false end
+                     end in
+  if negb sp_valid || negb sp_in_stack || (instr <? 1073741824) || (1073741824 + 65536 <=? instr) then None
+  else Some (instr - 1073741824, sp).
+
+Definition run_frames7 (below : list (option Z)) (ctx : list (bytes * Z)) (valid : option (list bytes))
+                       (stackbase : Z) (stack : bytes) (recs : list rec) : c06_out :=
+  let a := x86 in
+  match frames_pre below ctx valid stackbase stack with
+  | None => out_none
+  | Some (lookup, sp) =>
+      let E := frames_env (real_callee a ctx valid) (mem_read 4 stackbase stack) lookup (map mkSF below) (mkSF None) in
+      match walk_frame (real_ops a) Debug E (build_sym recs (mkSym [] [] None)) (real_init a ctx valid) with
+      | Ret (Some s) =>
+          match post_real 0 a sp s with
+          | Some s1 => Build_c06_out 1 None None (observe_real a s1) []
+          | None => out_none
+          end
+      | Ret None => out_none
+      | _ => out_panic
+      end
+  end.
+
+Definition run_frames7_text (below : list (option Z)) (ctx : list (bytes * Z)) (valid : option (list bytes))
+                            (stackbase : Z) (stack : bytes) (lines : list bytes) : c06_out :=
+  let a := x86 in
+  match frames_pre below ctx valid stackbase stack with
+  | None => out_none
+  | Some (lookup, sp) =>
+      let E := frames_env (real_callee a ctx valid) (mem_read 4 stackbase stack) lookup (map mkSF below) (mkSF None) in
+      match walk_frame_text (real_ops a) Debug E (map C09.Grammar.to_rle lines) (real_init a ctx valid) with
+      | Ret (Some (Some s)) =>
+          match post_real 0 a sp s with
+          | Some s1 => Build_c06_out 1 None None (observe_real a s1) []
+          | None => out_none
+          end
+      | Ret (Some None) => out_none
+      | Ret None => out_none
+      | _ => out_panic
+      end
   end.
